@@ -553,6 +553,23 @@ TrFrames ==
         /\ nviol' = nviol + Cardinality(V)
   /\ UNCHANGED <<ctx, saved, refObs>>
 
+(* spec -> impl: the state Wal.tla (at the real geometry, GEN_Wal) predicts at the end of a TLC-generated *)
+(* behaviour, compared with what the real library reached.  A difference is a conformance drift of the  *)
+(* implementation-shaped specification (the abstract state is also judged by the C05 monitor).          *)
+TrExpect ==
+  /\ R.ev = "expect"
+  /\ LET c == ctx
+         absOk == \A i \in 1..Len(R.abs) :
+                     LET e == R.abs[i] q == i - 1 IN
+                       IF e.a = 0 THEN ~c.qm[q].a
+                       ELSE /\ c.qm[q].a /\ c.qm[q].next = e.next
+                            /\ [j \in 1..Len(c.qm[q].recs) |-> <<c.qm[q].recs[j][1], c.qm[q].recs[j][3]>>] = e.recs
+         D ==  (IF ~absOk THEN {"spec->impl: abstract state differs from Wal.tla's prediction"} ELSE {})
+          \cup (IF c.hasPrev /\ <<c.prevW[1], c.prevW[2]>> # R.w THEN {"spec->impl: write cursor differs from Wal.tla's prediction"} ELSE {})
+          \cup (IF c.hasPrev /\ c.prevFiles # R.files THEN {"spec->impl: WAL file set differs from Wal.tla's prediction"} ELSE {})
+     IN ReportDrift(D)
+  /\ UNCHANGED <<ctx, saved, refObs, nviol>>
+
 TrPop ==
   /\ R.ev = "pop"
   /\ ctx' = saved
@@ -562,7 +579,7 @@ TrPop ==
 TraceNext ==
   /\ l <= NLines
   /\ l' = l + 1
-  /\ \/ TrRun \/ TrInit \/ TrBegin \/ TrEnd \/ TrCrash \/ TrPop \/ TrDamage \/ TrFault \/ TrName \/ TrDirHist \/ TrPair \/ TrPairCrash \/ TrFrames
+  /\ \/ TrRun \/ TrInit \/ TrBegin \/ TrEnd \/ TrCrash \/ TrPop \/ TrDamage \/ TrFault \/ TrName \/ TrDirHist \/ TrPair \/ TrPairCrash \/ TrFrames \/ TrExpect
 
 TraceInit ==
   /\ l = 1
